@@ -12,7 +12,7 @@ ID = "C04"
 
 def make_plan(seed: int, tier: str, opts: dict) -> dict:
     r = random.Random(seed)
-    spec = common.gen_supported_spec(r, max_nodes=4 if tier == "quick" else 5, tie_p=0.25, overrun_bias=0.8)
+    spec = common.gen_supported_spec(r, max_nodes=4 if tier == "quick" else 6, tie_p=0.25, overrun_bias=0.8)
     M = opts.get("episodes", 3)
     eps = [driver.gen_episode(r, j, open_loop=spec["open_loop"], nsteps=r.randint(6, 16), endings=("stop",), override_p=0.1) for j in range(M)]
     for ep in eps:
